@@ -49,7 +49,7 @@ def _post_lp2a(orig):
             shape = np.broadcast_shapes(weight.shape, log_pdf.shape)
         else:
             shape = np.broadcast_shapes(weight.shape, log_pdf.shape, np.shape(mask))
-        ok = conds.check_affiliation(R, 'C01.M1', res, shape=shape, eps=eps, mask=mask,
+        ok = conds.check_affiliation(R, 'C01.M1', res, shape=shape, eps=eps, mask=mask, active=(weight > 0),
                                      key='posterior-routine', where='log_pdf_to_affiliation')
         if not ok:
             return
